@@ -6,6 +6,32 @@
 """
 
 PROPS = {
+    'C01': {
+        'units': ['engine'],
+        'design_ref': 'DESIGN.md section 4, C01 and appendix A (lemma L1)',
+        'claim': 'the step contracts of lemma L1 on the real engine functions: scanRule decides never-built / signature / validity in that order and '
+                 'declares a rule up to date without a scan only if nothing is recorded; demandRule stamps builtAt with the current epoch exactly '
+                 'when a rule is brought up to date and clears the recorded dependencies exactly when a task is created; taskIsComplete moves '
+                 'computedAt to the current epoch exactly when the value changed or a change is forced; isComplete means complete in the current epoch',
+        'not_decided': ['the induction over builds and scan order (lemma L1, paper)', 'the engine loop executeTasks (dependency recording, provideValue)',
+                        'client Rule/Task code (assumed deterministic, as the property does)'],
+    },
+    'C02': {
+        'units': ['engine'],
+        'design_ref': 'DESIGN.md section 4, C02',
+        'claim': 'every reason reported to the delegate is true of the rule record at the moment of the report (precondition of the delegate stub at '
+                 'every call site under contract); a task is created only from NeedsToRun and the rule leaves that state; an unchanged value keeps computedAt',
+        'not_decided': ['the shadow-epoch history argument of the property (every step of it is proved, the induction is lemma L1)', 'breakCycle (Forced)'],
+    },
+    'C06': {
+        'units': ['engine'],
+        'design_ref': 'DESIGN.md section 4, C06',
+        'claim': 'task protocol automaton on the Task stubs (start once, prior value once after start and only for the same rule definition), ready queue '
+                 'receives a task exactly when its wait count reaches zero, finished tasks are queued under finishedTaskInfosMutex and the loop is notified '
+                 'afterwards, parked scan/input requests are all woken, lock discipline of taskInfos',
+        'not_decided': ['that all completion orders give the same values (a whole-build, all-schedules statement)', 'data-race freedom in general, deadlock',
+                        'the provide/ready/finish segments of executeTasks'],
+    },
     'C11': {
         'units': ['mkdeps', 'depinfo'],
         'design_ref': 'DESIGN.md section 4, C11',
